@@ -195,7 +195,7 @@ def run_server(chk, exe, streams, rng, *, label, single="all", nrand=4, cfg=None
         segs = segmentations(len(b), rng, single=single, nrand=nrand)
         segl.append(segs)
         scen.append({"mode": "server", "cfg": cfg or {}, "bytes": s["bytes"], "segs": segs, "eof": 1})
-    outs = vkit.run_driver(exe, scen, timeout=900)
+    outs = vkit.run_driver(exe, scen, timeout=3000)
     nfail = 0
     for s, segs, sc, o in zip(streams, segl, scen, outs):
         chk.cov["traces_validated_against_impl"] += len(segs)
@@ -288,7 +288,7 @@ def run_client(chk, exe, streams, rng, *, label, single="all", nrand=3, cfg=None
                 sg = [[]] + ([list(range(1, p))] if p > 1 else [])
                 scen.append({"mode": "client", "cfg": cfg or {}, "bytes": s["bytes"][:p], "segs": sg, "reqs": s["rq"], "eof": 1})
                 meta.append((s, s["pre"][p - 1], sg, "close after %d octets" % p))
-    outs = vkit.run_driver(exe, scen, timeout=900)
+    outs = vkit.run_driver(exe, scen, timeout=3000)
     nfail = 0
     failed_streams = set()
     for (s, alts, segs, what), sc, o in zip(meta, scen, outs):
